@@ -49,6 +49,14 @@ def run(chk):
     K = 2 if chk.tier == 'quick' else 6
     d = X.Decider(seed=chk.seed, k=K, positive=[sin_t], mask_hook=switch_mask)
 
+    def generic_arm(itp, st, v, fr, dec=None):
+        # a test `x != 0` / `x == 0` on a symbolic quantity (np.any(coefficient)): the generic arm is taken (x is zero only on a measure-zero set unless it
+        # vanishes identically); the exact-zero arms are what R14.6 runs with the limit values passed as numbers
+        if isinstance(v, X.Node) and v.op == 'cmp' and v.val in ('!=', '=='):
+            z = (dec or d).is_zero(X.add(v.args[0], X.neg(v.args[1])))
+            return (not z) if v.val == '!=' else z
+        return None
+    it.hooks['fork'] = generic_arm
     results = {}     # (key, use_static, spin) -> (freqs, modes, tuples)
     mods = {}
     for key, fn_ in FILES.items():
@@ -227,8 +235,56 @@ def run(chk):
     sync = total('sync_low_e', False)
     for k0 in ('nsr_noobl', 'nsr_modes_noobl'):
         taylor_agree('R14.4', f'{FILES[k0]} at spin = n through e^1 == synchronous_low_e', total(k0, False, spin=n), sync, [{'e': 0}, {'e': 1}], mods[k0][0].where(mods[k0][1]))
+    exact_limits(chk, repo, mods, call, dict(radius=r, longitude=lon, colatitude=col, time=t, orbital_frequency=n, rotation_frequency=o, eccentricity=e, obliquity=ob, host_mass=M,
+                                           semi_major_axis=a), K, sin_t, generic_arm)
     chk.floor('R14.1', 100); chk.floor('R14.2', 100); chk.floor('R14.3', 100); chk.floor('R14.4', 15)
     chk.assume('colatitude in (0, pi) so that sqrt(1 - cos^2) = sin; non-zero mode frequencies on the generic region')
+
+
+def exact_limits(chk, repo, mods, call, env, K, sin_t, generic_arm):
+    """R14.6: the functions are interpreted once more with numpy-array inputs (array mode: `x = y` aliases, `x += c` updates in place) and with the limit values the
+    property names passed as exact numbers (e = 0, obliquity = 0, both).  What they return there must be what the generic formula gives at that value, mode by mode:
+    a special case taken on exact zeros, or buffers shared between modes, cannot change any of the six fields."""
+    from ..core.interp import PathExplorer
+    n_inst = 0
+    for key in FILES:
+        m, f = mods[key]
+        params = [p.arg for p in f.args.args]
+        configs = [('generic', {})]
+        if 'eccentricity' in params: configs.append(('e = 0', {'eccentricity': 0}))
+        if 'obliquity' in params: configs.append(('obliquity = 0', {'obliquity': 0}))
+        if 'eccentricity' in params and 'obliquity' in params and chk.tier != 'quick': configs.append(('e = 0, obliquity = 0', {'eccentricity': 0, 'obliquity': 0}))
+        flags = (False, True) if 'use_static' in params else (False,)
+        for us in flags:
+            ref = call(key, us)[2]
+            for cname, over in configs:
+                pins = {('e' if k_ == 'eccentricity' else 'obliquity'): 0 for k_ in over}
+                dd = X.Decider(seed=chk.seed + 23, k=K, positive=[sin_t], mask_hook=switch_mask, pins=pins)
+                it = Interp(repo)
+                it.array_mode = True
+                kw = {p: env[p] for p in params if p in env}
+                kw.update({k_: X.const(v_) for k_, v_ in over.items()})
+                if 'use_static' in params: kw['use_static'] = us
+
+                it.hooks['fork'] = lambda itp, st, v, fr, dd=dd: generic_arm(itp, st, v, fr, dd)
+                bad = []
+                for out in (it.call(m, f, [], dict(kw)),):
+                    lab = ''
+                    if not (isinstance(out, tuple) and len(out) == 3 and isinstance(out[2], dict)):
+                        bad.append('unexpected return shape' + lab); continue
+                    got = out[2]
+                    if set(got) != set(ref):
+                        bad.append(f'mode names differ: {sorted(set(got) ^ set(ref))[:4]}' + lab); continue
+                    for name, tup in got.items():
+                        for i in range(min(len(tup), 6)):
+                            if not dd.equal(X.lift(tup[i]), ref[name][i]):
+                                bad.append(f'mode {name} {NAMES[i]}: {dd.describe(X.lift(tup[i]), ref[name][i])}' + lab)
+                                break
+                inst = f'{FILES[key]} static={us}, array inputs, {cname}: every field of every mode == the generic formula' + ('' if not over else ' at that value')
+                chk.ob('R14.6', inst, not bad, '; '.join(bad[:3]), m.where(f), key=f'R14.6|{FILES[key]}|{us}|{cname}', method='array-mode interpretation (aliasing, in-place updates) + pinned GF(p^2) PIT')
+                n_inst += 1
+    chk.note_analysed('exact limits', f'{n_inst} (implementation, flag, limit) runs with array inputs')
+    chk.floor('R14.6', 30)
 
 
 def mode_from_name(name, n, o):
